@@ -85,6 +85,21 @@ def run(tier, seed, which="C14"):
         members = [dict(names=sc["names"], seqs=v, type=sc["type"], gpo=sc["gpo"], gpe=sc["gpe"], tgpe=sc["tgpe"], threads=sc["threads"], dump_in=True) for v in variants]
         groups.append(dict(gid="mask_%d" % i, rel="pattern", prop="C14", members=members, key="mask:%s:%d" % (base, sc["type"]),
                            nontrivial=len(set(base)) > 1))
+    # nucleotide inputs with IUPAC ambiguity codes (4-9 % of the residues), re-spelled by case: per letter, only the ambiguity codes,
+    # whole file.  The kind of sequence kalign detects must not depend on the case of these letters either.
+    for i in range(12 if tier == "quick" else 150):
+        n = rng.randint(3, 7)
+        L = rng.randint(40, 120)
+        base = gen.family(rng, n, L, gen.DNA if i % 2 else gen.RNA, sub=0.1, indel=0.04)
+        frac = rng.choice([0.04, 0.06, 0.08, 0.09])
+        base = ["".join(rng.choice("RYKMSWBDHV") if rng.random() < frac else c for c in x) for x in base]
+        variants = [base, [x.lower() for x in base],
+                    ["".join(c.lower() if c in "RYKMSWBDHV" else c for c in x) for x in base],
+                    ["".join(c.lower() if c in "ACGTU" else c for c in x) for x in base],
+                    [gen.case_mask(rng, x, 0.5) for x in base]]
+        ty = rng.choice([0, 1, 2, 5])
+        members = [dict(names=["s%d" % j for j in range(n)], seqs=v, type=ty, threads=2, dump_in=True) for v in variants]
+        groups.append(dict(gid="iupac_%d" % i, rel="pattern", prop="C14", members=members, key="iupac:%s:%d" % (base, ty)))
     # records that share one name and one length (the statement does not require distinct names): the spelling of the
     # residues must not decide the internal order either
     for i in range(40 if tier == "quick" else 600):
